@@ -351,6 +351,77 @@ def run_sum_mll(case, ctx: Ctx):
     ctx.label("sum_mll", f"k={len(case['members'])}")
 
 
+# ---------------------------------------------------------------------------------------------------
+# registered added loss terms: the SGPR trace term of an InducingPointKernel, also when the kernel sits below other kernels
+# (AdditiveKernel / ProductKernel keep their members in a torch ModuleList, ScaleKernel holds it directly)
+# ---------------------------------------------------------------------------------------------------
+@st.composite
+def added_loss_case(draw):
+    d = draw(st.integers(1, 2))
+    n, m = draw(st.integers(2, 6)), draw(st.integers(1, 4))
+    return {"d": d, "n": n, "m": m, "wrap": draw(st.sampled_from(["alone", "add", "prod", "scale", "add_nested"])),
+            "base": draw(kern.base_kernel(d, [], names=["RBF", "Matern2.5", "RQ"], allow_ad=False)),
+            "k2": draw(kern.base_kernel(d, [], names=["RBF", "Matern1.5", "Periodic"], allow_ad=False)),
+            "outputscale": draw(kern.pos(0.2, 3.0)), "Z": draw(kern.points(m, d)), "X": draw(kern.points(n, d)), "y": draw(kern.arr([n], kern.REAL)),
+            "noise": [draw(kern.pos(0.05, 1.0))], "mean": draw(kern.mean_recipe(d, []))}
+
+
+def run_added_loss(case, ctx: Ctx):
+    from gpytorch import kernels as K
+
+    ctx.cls = f"added_loss|{case['wrap']}"
+    X, y, Z = T(case["X"]), T(case["y"]), T(case["Z"])
+    n = case["n"]
+    s2 = case["noise"][0]
+    Kzz = kern.ref_kernel(case["base"], Z, Z)
+    sv = torch.linalg.svdvals(Kzz)
+    if float(sv[0] / sv[-1]) > 1e6:
+        raise Discard("inducing matrix ill-conditioned (kappa > 1e6)")
+    Kxz = kern.ref_kernel(case["base"], X, Z)
+    Q = Kxz @ torch.linalg.solve(Kzz, Kxz.T)
+    kdiag = kern.ref_kernel(case["base"], X, X).diagonal()
+    K2 = kern.ref_kernel(case["k2"], X, X)
+    wrap = case["wrap"]
+    Ktrain = {"alone": Q, "add": Q + K2, "add_nested": case["outputscale"] * (Q + K2), "prod": Q * K2, "scale": case["outputscale"] * Q}[wrap]
+    A = Ktrain + s2 * torch.eye(n)
+    sv = torch.linalg.svdvals(A)
+    kappa = float(sv[0] / sv[-1])
+    if kappa > 1e8:
+        raise Discard("ill-conditioned (kappa>1e8)")
+    mx = kern.ref_mean(case["mean"], X)
+    r = y - mx
+    logn = -0.5 * ((r * torch.linalg.solve(A, r)).sum() + torch.linalg.slogdet(A)[1] + n * math.log(2 * math.pi))
+    added = -0.5 * ((kdiag - Q.diagonal()) / s2).sum()
+    want = (logn + added) / n
+    with ctx.observing("build"):
+        lik = gpytorch.likelihoods.GaussianLikelihood()
+        lik.noise = T(case["noise"])
+        ipk = K.InducingPointKernel(kern.build_kernel(case["base"]), inducing_points=Z, likelihood=lik)
+        k2 = kern.build_kernel(case["k2"])
+        if wrap == "alone":
+            covar = ipk
+        elif wrap == "add":
+            covar = ipk + k2
+        elif wrap == "prod":
+            covar = ipk * k2
+        elif wrap == "scale":
+            covar = K.ScaleKernel(ipk)
+            covar.outputscale = T(case["outputscale"])
+        else:
+            covar = K.ScaleKernel(ipk + k2)
+            covar.outputscale = T(case["outputscale"])
+        model = G.RecipeGP(X, y, lik, kern.build_mean(case["mean"]), covar)
+        model.train()
+        lik.train()
+    with ctx.observing("objective"):
+        with torch.no_grad():
+            got = gpytorch.mlls.ExactMarginalLogLikelihood(lik, model)(model(X), y)
+    tol = max(G.chol_tol(kappa * float(torch.linalg.cond(Kzz)) ** 0.5, True), 1e-8)
+    ctx.close("value", got, want, rtol=tol, atol=tol, scale=max(1.0, abs(float(want))))
+    ctx.set_nontrivial(float((kdiag - Q.diagonal()).abs().max()) > 1e-6)
+    ctx.label("added_loss", f"wrap={wrap}")
+
+
 RULE = ("exact-GP recipe as in C01 (kernel trees, ARD/active_dims/batch, Gaussian / fixed-noise / fixed + learned noise) x prior "
         "assignment (each constrained parameter independently gets none or one of Normal, LogNormal, Gamma, HalfNormal, HalfCauchy, "
         "Uniform) x objective in {ExactMarginalLogLikelihood, LeaveOneOutPseudoLikelihood}; the oracle rebuilds the objective from raw "
@@ -361,6 +432,7 @@ SUBCHECKS = [
     Subcheck("mll.value_and_grad", run_mll, strategy=mll_case, quick=1200, thorough=40000, min_shard=40),
     Subcheck("mll.multitask", run_multitask_mll, strategy=multitask_mll_case, quick=500, thorough=15000, min_shard=40),
     Subcheck("mll.sum", run_sum_mll, strategy=sum_mll_case, quick=300, thorough=8000, min_shard=40),
+    Subcheck("mll.added_loss", run_added_loss, strategy=added_loss_case, quick=400, thorough=10000, min_shard=40),
 ]
 
 SPEC = PropertySpec(
